@@ -133,6 +133,14 @@ func RunNode(jsPath string, args []string, o NodeOpts) Outcome {
 		env = append(os.Environ(), o.Env...)
 	}
 	so, se, code, to := runCmd(o.Timeout, env, filepath.Dir(jsPath), "node", nargs...)
+	if to {
+		// a time budget that is hit says nothing about the program (the machine may be busy):
+		// one more attempt with a generous budget, then the run is inconclusive
+		so, se, code, to = runCmd(6*o.Timeout, env, filepath.Dir(jsPath), "node", nargs...)
+		if to && os.Getenv("VERIF_TIMEOUT_IS_OUTCOME") == "" {
+			Infra("node %s %v did not finish within %v (inconclusive; a busy machine or a program that hangs)", jsPath, args, 6*o.Timeout)
+		}
+	}
 	out := Outcome{Trace: splitLines(so), Stderr: se, Code: code}
 	switch {
 	case to:
@@ -258,6 +266,12 @@ func RunNative(bin string, args []string, timeout time.Duration, extraEnv ...str
 	env := append(os.Environ(), "GOTRACEBACK=single")
 	env = append(env, extraEnv...)
 	so, se, code, to := runCmd(timeout, env, filepath.Dir(bin), bin, args...)
+	if to {
+		so, se, code, to = runCmd(6*timeout, env, filepath.Dir(bin), bin, args...)
+		if to {
+			Infra("native %s %v did not finish within %v (inconclusive)", bin, args, 6*timeout)
+		}
+	}
 	_ = so
 	out := Outcome{Code: code}
 	lines := splitLines(se)
